@@ -587,6 +587,25 @@ var badLines = []string{
 	"$GENERATE 1-0 a$ A 10.0.0.1",
 	"$GENERATE 0-65536 a$ A 10.0.0.1",
 	"$GENERATE 1-2/0 a$ A 10.0.0.1",
+	// malformed numbers and modifiers of $GENERATE
+	"$GENERATE x-5 a$ A 10.0.0.1",
+	"$GENERATE 1e1-20 a$ A 10.0.0.1",
+	"$GENERATE 0-y a$ A 10.0.0.1",
+	"$GENERATE 0-0x5 a$ A 10.0.0.1",
+	"$GENERATE -5 a$ A 10.0.0.1",
+	"$GENERATE 5- a$ A 10.0.0.1",
+	"$GENERATE 5 a$ A 10.0.0.1",
+	"$GENERATE 1-5/ a$ A 10.0.0.1",
+	"$GENERATE 1-5/z a$ A 10.0.0.1",
+	"$GENERATE 1-2 a${0,0,d,x} 300 IN A 10.0.0.1",
+	"$GENERATE 1-2 a${x} 300 IN A 10.0.0.1",
+	"$GENERATE 1-2 a${0,y} 300 IN A 10.0.0.1",
+	"$GENERATE 1-2 a${0,256} 300 IN A 10.0.0.1",
+	"$GENERATE 1-2 a${0,0,q} 300 IN A 10.0.0.1",
+	"$GENERATE 1-2 a${} 300 IN A 10.0.0.1",
+	"$GENERATE 1-2 a${0,0,d 300 IN A 10.0.0.1",
+	"$GENERATE 1-2 a.example. 300 IN A 10.0.0.${0,,d}",
+	"$GENERATE 1-2 a${-5} 300 IN A 10.0.0.1",
 	"$INCLUDE no-such-file.db",
 	// lexical faults on directive lines
 	"$TTL 300 )",
